@@ -155,6 +155,19 @@ def run(prog, chk):
     rets = [n for n in walk_no_defs(ha.node) if isinstance(n, ast.Return)]
     chk.ob("R5.is-authenticated", "AuthHandler.is_authenticated", len(rets) == 1 and unparse(rets[0].value) == "self.authenticated", ha.loc,
            "returns %s" % (unparse(rets[0].value) if rets else "?"))
+    # every other object that can stand in as transport.auth_handler answers the question with a boolean that comes from
+    # the real handler's flag: an is_authenticated that returns something else (a bound method is always true) opens the gate
+    for f_ in prog.all_functions():
+        if f_.name != "is_authenticated" or f_.qual in ("Transport.is_authenticated", "AuthHandler.is_authenticated") or f_.cls is None:
+            continue
+        if prog.is_subclass(f_.cls.name, "Transport"):
+            continue
+        rv = [n.value for n in walk_no_defs(f_.node) if isinstance(n, ast.Return)]
+        okd = bool(rv) and all(v is not None and (unparse(v) == "self.authenticated" or
+                                                  (isinstance(v, ast.Call) and isinstance(v.func, ast.Attribute) and v.func.attr == "is_authenticated" and not v.args)) for v in rv)
+        is_prop = any(unparse(d) == "property" for d in f_.node.decorator_list)
+        chk.ob("R5.is-authenticated", f_.qual, okd and not is_prop, f_.loc,
+               "returns %s%s" % ([unparse(v) if v is not None else "None" for v in rv], " (a property: called as a method it would fail)" if is_prop else ""))
     # the server-side auth handler object is created once and never replaced by a fresh (unauthenticated->reset) one
     creators = []
     for f in prog.all_functions():
